@@ -85,6 +85,10 @@ def _schemas(tier):
     return _c[tier]
 
 
+def prepare(tier):
+    _schemas(tier)
+
+
 def units(tier):
     return gen.chunks(len(_schemas(tier)), 24)
 
